@@ -54,6 +54,50 @@ def gen_history(rng, at, ninj, growth):
     return ops, ib
 
 
+def gen_second_backup(rng, at):
+    """a second iwkv_online_backup (op X, target bkp2 pre-filled with a sentinel) is issued by another thread while the
+    first one is held before WAL_CLEANUP (at = -1), during MAIN_COPY (at >= 1) or at the end of WAL_COPY1 (at = 0);
+    after the first returned, a third backup (op Y, target bkp3) must work normally"""
+    ops = ["n1"] + [rnd_op(rng, False) for _ in range(rng.range(3, 10))]
+    ib = len(ops)
+    inj = [rnd_op(rng, False), "X", rnd_op(rng, False)]
+    ops.append("B%d:%d" % (at, len(inj)))
+    ops += inj
+    ops += [rnd_op(rng, False) for _ in range(rng.range(0, 3))] + ["s", "Y"]
+    return ops, ib
+
+
+def judge_second_backup(d, impl, crc, ops, tr, states):
+    """oracle of the second-backup class; returns None or text"""
+    ix = ops.index("X")
+    iy = ops.index("Y")
+    xl = [l.split() for l in open(os.path.join(d, "trace")) if l.startswith("X ")]
+    if not xl:
+        return "the second backup call did not return"
+    rc, size, same = xl[0][1], int(xl[0][2]), xl[0][3] == "1"
+    released_inside = any(l.startswith("G inject") for l in open(os.path.join(d, "trace")))
+    if not released_inside:
+        return None if rc == "0" else "a backup issued when no other was running fails with %s" % rc
+    if rc != "BKP_IN_PROGRESS":
+        return "a second iwkv_online_backup issued while one is running returned %s instead of IWKV_ERROR_BACKUP_IN_PROGRESS" % rc
+    if not same:
+        return "the refused second backup touched its target file (size now %d)" % size
+    oy = tr["ops"].get(iy, {})
+    if oy.get("rc") != "0":
+        return "a backup issued after the first one returned fails with %s" % oy.get("rc")
+    d3 = os.path.join(d, "img3")
+    os.makedirs(d3, exist_ok=True)
+    if not os.path.exists(os.path.join(d, "bkp3")):
+        return "the third backup wrote no image"
+    shutil.copyfile(os.path.join(d, "bkp3"), os.path.join(d3, "db"))
+    rci, outi, erri = vlib.run_lines(impl, "rec %s %d -1\n" % (d3, crc))
+    f3 = W.fields((outi + ["<none>"])[0])
+    got, probs = W.canon_dump(f3.get("dump", ""))
+    if f3.get("exit") != "0" or f3.get("rc") != "0" or probs or got != states[iy]:
+        return "the image of a backup issued after the first one returned is not the store's state at that call: %s" % (outi[:1],)
+    return None
+
+
 def ref_states(ops):
     r = W.Ref()
     out = [r.canon()]
@@ -85,6 +129,8 @@ def one(run, impl, model, wd, name, crc, ops, ib):
     grew = at >= 1 and any(f[0] == "R" for _, f in tr["lsn"][a:bnd])
     res["resize_during_main_copy"] = grew
     gcl = "growth-during-main-copy"
+    if "X" in ops and not grew and (line != "run exit=0" or tr["ops"].get(ib, {}).get("rc") != "0"):
+        return res, False, "second backup issued during a running one: %s, first backup rc %s" % (line, tr["ops"].get(ib, {}).get("rc")), "second-backup"
     if line != "run exit=0":
         return res, False, ("the process running backup + writer died: %s%s" % (
             line, " (a writer operation needed a larger file while the main file was being copied)" if grew else "")), gcl if grew else "crash"
@@ -93,9 +139,11 @@ def one(run, impl, model, wd, name, crc, ops, ib):
         return res, False, "iwkv_online_backup failed with %s" % ob.get("rc"), "backup-error"
     # how many operations ran inside the call
     inj = 0
+    writer_in_time = True
     for l in open(os.path.join(d, "trace")):
         if l.startswith("K "):
             inj = int(l.split()[1])
+            writer_in_time = len(l.split()) < 4 or l.split()[3] == "1"
     res["injected"] = inj
     # image: model first (pristine bytes), then the implementation opens a copy
     rcm, outm, errm = vlib.run_lines(W.big_stack(model), "img %s %d\n" % (d, crc), timeout=300)
@@ -108,7 +156,9 @@ def one(run, impl, model, wd, name, crc, ops, ib):
     fb = W.fields(outb[0]) if outb and outb[0].startswith("bkp") else {}
     real_img = W.masked_image_crc(open(os.path.join(d, "bkp"), "rb").read())
     res["stage_model"] = None
-    if not grew and fb.get("image") != real_img:
+    if inside_marker and not writer_in_time:
+        res.pop("stage_model", None)      # the writer outlived the 300 ms wait: where its calls fall is not known
+    elif not grew and fb.get("image") != real_img:
         res["stage_model"] = "image bytes (clock masked): impl %s, Backup.backup_run %s" % (real_img, fb.get("image") or (outb[:1], errb[-100:]))
     d2 = os.path.join(d, "img")
     os.makedirs(d2)
@@ -157,6 +207,10 @@ def one(run, impl, model, wd, name, crc, ops, ib):
     gotl, probsl = W.canon_dump(fl.get("dump", ""))
     if fl.get("exit") != "0" or fl.get("rc") != "0" or probsl or gotl != states[len(ops)]:
         return res, False, "the live store is not in the state after the whole history once the backup is done: %s" % live_line[:200], gcl if grew else "live-affected"
+    if "X" in ops:
+        why3 = judge_second_backup(d, impl, crc, ops, tr, states)
+        if why3:
+            return res, False, why3, "second-backup"
     return res, True, "", ""
 
 
@@ -183,13 +237,20 @@ def check(run):
             growth = run.rng.chance(1, 3)
             ops, ib = gen_history(run.rng, at, ninj, growth)
             jobs.append((h, crc, ops, ib, growth, at, ninj))
+        for q in range((6 if run.tier == "quick" else 150) * mult):
+            crc = run.rng.choice([0, 1, 2])
+            at = [-1, 0, 1][q % 3]
+            ops, ib = gen_second_backup(run.rng, at)
+            jobs.append((2000000 + q, crc, ops, ib, False, at, 3))
         from concurrent.futures import ThreadPoolExecutor
         with ThreadPoolExecutor(vlib.NCPU) as ex:
             results = list(ex.map(lambda j: one(run, impl, model, wd, "h%d" % j[0], j[1], j[2], j[3]), jobs))
         for (h, crc, ops, ib, growth, at, ninj), (res, ok, why, cl) in zip(jobs, results):
             run.dist("writer_ops_inside_backup_%d" % res.get("injected", -1))
             run.dist("growth_inside" if growth else "no_growth_inside")
-            run.dist("inject_at_chunk_%d" % at if at else "inject_at_end_of_WAL_COPY1")
+            if "X" in ops:
+                run.dist("second_backup_while_first_%s" % ({-1: "before_WAL_CLEANUP", 0: "in_WAL_COPY1"}.get(at, "in_MAIN_COPY")))
+            run.dist(("inject_at_chunk_%d" % at) if at > 0 else ("inject_at_end_of_WAL_COPY1" if at == 0 else "inject_before_WAL_CLEANUP"))
             if at == 0:
                 run.dist("reset_mark_by_%s" % ("checkpoint" if "c" in ops[ib + 1:ib + 1 + res.get("injected", 0)] else "growth"))
             run.case("%s|%d" % (" ".join(ops), crc), nontrivial=res.get("injected", 0) > 0,
